@@ -26,15 +26,21 @@ META = {
             "scheduler pre-empting at every atomic operation, with a harness Executor that refuses launches per fault "
             "list; each observed outcome (return codes, join result, delivery order) must be one the extracted model "
             "admits (exhaustive exploration per small program); monitors check the property text directly on every run.",
-    "note": "All sentences of the property are proved at full strength except the last step of liveness: 'join() does "
-            "return' is proved as deadlock-freedom of every reachable state plus 'the owner of a non-zero counter is "
-            "enabled'; termination under a fair scheduler is the standard argument on top of that and is not mechanised "
-            "(the scheduler runs and the exhaustive model exploration - no STUCK outcome without a refused launch - cover "
-            "it empirically).  'stale = false' (last reset of the counter was a consumer's exit) is the formal reading "
+    "note": "All sentences of the property are proved at full strength except part of liveness.  'join() does return' is "
+            "proved as (a) deadlock-freedom of every reachable state and 'the owner of a non-zero counter is enabled', "
+            "(b) for states in which the producers are through (no thread between ticket and fetch_add, only joins "
+            "left; launch retries and arbitrary finite fault lists allowed): every step strictly decreases an explicit "
+            "measure, so at most mu(s) steps happen under any schedule, and every weakly fair infinite schedule (each "
+            "thread is again and again picked or not enabled) reaches all-threads-finished (c16_join_returns_fair).  Not "
+            "mechanised: that a fair schedule gets from an arbitrary reachable state to a producers-quiet one (consumer "
+            "spinning on an unpublished ticket, capacity-blocked producers); the scheduler runs and the exhaustive "
+            "model exploration - no STUCK outcome without a refused launch - cover that empirically.  Resumption after "
+            "refused launches is proved at step level for arbitrary refusal histories (c16_refused_then_resumes).  'stale = false' (last reset of the counter was a consumer's exit) is the formal reading "
             "of 'as long as the executor accepts the launch'.  Fixed defect (f78c0c5, was signature ticket-gap): the "
             "consumer used to give up its role when try_pop_n stopped at a taken-but-unpublished ticket; a recurrence is "
             "reported by the covered/join monitors as a violation and re-opens c16_never_stranded (translator target "
-            "keep_role_while_tickets_out).  Exactly-once relies on C01 (the inner queue delivers each ticket's value to "
+            "keep_role_while_tickets_out).  The structure of the roll-back in start_consumer (CAS retry loop) is read by the "
+            "model from the regenerated site table: replacing it (e.g. by a fetch_sub) re-opens g_rb_kind.  Exactly-once relies on C01 (the inner queue delivers each ticket's value to "
             "the pop of that ticket).  Trusted: Coq kernel; translator; extraction + OCaml explorer; macro shim and "
             "dsched (sequentially consistent interleavings; memory orders are checked as obligations on the "
             "regenerated site tables).",
@@ -87,7 +93,7 @@ def gen_program(rng, small):
 def main(argv):
     chk = Check("C16", argv)
     thorough = chk.tier == "thorough"
-    chk.translate(["execution_queue"])
+    chk.translate(["execution_queue_sites", "execution_queue"])
     # the C++ driver (3 translation units through the macro shim) is built while Coq runs
     built = {}
 
